@@ -1,7 +1,7 @@
 (* C11 — property theorems only (the regenerated index obligations live in Gen_C11.v). *)
 Require Import V.Lib V.C11_Model V.C11_Proofs V.Gen_C11.
 Require V.C09_Model.
-Require Import V.C11_Exec V.C11_ExecProofs.
+Require Import V.C11_Exec V.C11_ExecProofs V.C11_KeyProofs.
 Open Scope Z_scope.
 
 (* Every Dispenser operation a setup function can call is TOTAL (no index out of range, whatever
@@ -312,3 +312,53 @@ Print Assumptions C11_same_line_in_every_site_answers_as_once.
 Example C11_same_line_in_every_site_answers_as_once_nonvacuous :
   predict_sites true [0%N; 0%N; 0%N] = 0%N /\ predict_sites false [0%N; 1%N; 0%N] = 1%N.
 Proof. vm_compute. repeat split; reflexivity. Qed.
+
+(* ---- validate / start agreement for server blocks with ANY number of keys and setups whose verdict depends on the
+   key: executeDirectives runs every directive for EVERY key of a block, in both modes.  [vsetup v f]: the verdict
+   [v] is a function of the call (directive, block index, key index = controller.ServerBlockKeyIndex, key =
+   controller.Key, the block's tokens), what the call builds ([f]) is arbitrary. ---- *)
+
+(* validation accepts exactly the configurations whose EVERY scheduled call - every key of every block that writes
+   the directive, for every directive - is accepted by the verdict; whatever the state it starts from *)
+Theorem C11_validation_accepts_iff_every_key_accepts :
+  forall (A St : Type) (v : @call A -> bool) (f : @call A -> St -> St)
+         (callback : bytes -> St -> C09_Model.outcome St) dirs (bs : list (@C09_Model.block A)) s,
+  accepted (vsetup v f) callback false dirs bs s = forallb v (schedule dirs bs).
+Proof. exact @validation_accepts_iff_every_key. Qed.
+Print Assumptions C11_validation_accepts_iff_every_key_accepts.
+
+(* the directive phase of a start against validation, from ANY two states: what a start accepts validation accepts,
+   and when no parsing callback fails a start accepts exactly the configurations validation accepts *)
+Theorem C11_start_directive_phase_agrees_with_validation :
+  forall (A St : Type) (v : @call A -> bool) (f : @call A -> St -> St)
+         (callback : bytes -> St -> C09_Model.outcome St) dirs (bs : list (@C09_Model.block A)) s1 s2,
+  (accepted (vsetup v f) callback true dirs bs s2 = true -> accepted (vsetup v f) callback false dirs bs s1 = true) /\
+  ((forall d s', C09_Model.out_ok (callback d s') = true) ->
+   accepted (vsetup v f) callback true dirs bs s2 = accepted (vsetup v f) callback false dirs bs s1).
+Proof. exact @start_directive_phase_agrees. Qed.
+Print Assumptions C11_start_directive_phase_agrees_with_validation.
+
+(* a key the verdict rejects ANYWHERE among the keys of a block makes both modes reject *)
+Theorem C11_rejected_key_rejects_both_modes :
+  forall (A St : Type) (v : @call A -> bool) (f : @call A -> St -> St)
+         (callback : bytes -> St -> C09_Model.outcome St) cbs dirs (bs : list (@C09_Model.block A)) s d i b j k toks,
+  In d dirs -> nth_error bs i = Some b -> nth_error (fst b) j = Some k ->
+  C09_Model.tokens_of (snd b) d = Some toks -> v (d, i, j, k, toks) = false ->
+  accepted (vsetup v f) callback cbs dirs bs s = false.
+Proof. exact @rejected_key_rejects_both_modes. Qed.
+Print Assumptions C11_rejected_key_rejects_both_modes.
+
+(* satisfiable: the verdict rejects the key [42] (third of three keys of the first block), the calls count
+   themselves, the callbacks count themselves and never fail *)
+Definition ex_kv (c : @call N) : bool := negb (leqb (snd (fst c)) [42%N]).
+Example C11_rejected_key_rejects_both_modes_nonvacuous :
+  let bs := [([[1%N]; [2%N]; [42%N]], [([100%N], [0%N])])] in
+  In [100%N] [[100%N]] /\ nth_error bs 0%nat = Some (hd ([], []) bs) /\
+  nth_error (fst (hd ([], []) bs)) 2%nat = Some [42%N] /\
+  C09_Model.tokens_of (snd (hd ([], []) bs)) [100%N] = Some [0%N] /\
+  ex_kv ([100%N], 0%nat, 2%nat, [42%N], [0%N]) = false /\
+  (forall d s', C09_Model.out_ok (ex_callback d s') = true) /\
+  accepted (vsetup ex_kv (fun _ s => (S (fst s), snd s))) ex_callback true [[100%N]] bs (0, 0)%nat = false /\
+  accepted (vsetup ex_kv (fun _ s => (S (fst s), snd s))) ex_callback true [[100%N]]
+           [([[1%N]; [2%N]; [43%N]], [([100%N], [0%N])])] (0, 0)%nat = true.
+Proof. cbn zeta. repeat split; try (vm_compute; auto; fail). Qed.
